@@ -255,6 +255,11 @@ def c08_jobs(tier):
         des("resource-and-pool", "progress", b, dl, procs=3, prios="0,1,2", budget=4, res=1, pool=2,
             ops="racq0,rrel0,rpre0,pacq1,pacq2,ppre2,prel1,prel2,hold0,hold1,int0,stop0,exit",
             script0="pacq2,racq0,hold2", script1="hold1,racq0,hold1", script2="hold1,ppre2,hold1"),
+        # a waiter for whom somebody else arms a timer while it waits (a deadline given from outside), then the object
+        # becomes available before that timer fires - or the timer fires first
+        des("deadline-from-outside", "progress,notif", b, dl, procs=3, prios="0,0,1", budget=4, res=1, buf=2,
+            ops="racq0,rrel0,bget1,bput1,hold0,hold1,hold2,taddo0,taddo1,tadd1,int0,exit",
+            script0="racq0,hold1,rrel0", script1="racq0,hold1,rrel0", script2="hold0,taddo1,hold1"),
         # those who wait for a resource through an observing condition: two conditions observe the same guard and are
         # subscribed and unsubscribed in every order; a release (or the holder's end) reaches every condition still subscribed
         des("two-observers", "progress,condition", b, dl, procs=3, prios="0,1,2", budget=6, cond=1, res=1,
@@ -472,6 +477,10 @@ def c07_jobs(tier):
         des("cap3-p3-colliding-keys", "pool", b, dl, procs=3, prios="0,1,2", budget=4, pool=3, ops=ops, collide=1,
             script0="pacq2,hold1,prel2", script1="pacq1,hold1,ppre2", script2="hold1,ppre3,hold1"),
     ]
+    # 7-17 simultaneous holders (the holders' list grows once or twice) x preempt / priority change / stop of the first,
+    # last or middle holder: holdings and amount in use
+    jobs.append(dict(name="holders-7-17", harness="c10_ramps", opts=dict(mode="holders", prop="c07"), bound_min=0, bound_max=0,
+                     deadline=300, crash_is_violation=True, recycle=200, run_timeout=60))
     # a waiter that loses the hand-over race to a re-acquiring releaser twice in a row
     jobs.append(des("cap2-hog", "pool", b, dl, procs=2, prios="0,0", budget=8, pool=2,
                     ops="pacq1,pacq2,prel1,prel2,hold0,hold1,int0,int1,exit",
@@ -682,6 +691,10 @@ def c13_jobs(tier):
             script0="hold1,setx1,csig,setx2", script1="cwait0,hold1", script2="cwait1,hold1", script3="cwait2,hold1"),
         des("forwarded-register", "condition", b, dl, procs=4, prios="0,1,2,1", budget=4, cond=1, res=1, ops=ops,
             subscribe="res", script0="racq0,hold1,rrel0", script1="cwait3,hold1", script2="cwait3,hold1", script3="cwait0,hold1"),
+        # cancel / remove addressed to the wrong condition (one at which the process does not wait) change nothing
+        des("wrong-condition", "condition,notif", b, dl, procs=3, prios="0,1,2", budget=4, cond=1, res=1,
+            ops="cwait0,cwait1,csig,setx1,setx2,cremoveb1,ccancelb1,cremove1,ccancel1,stop1,start1,hold0,hold1,exit",
+            script0="hold1,cremoveb1,setx1,csig", script1="cwait0,hold1", script2="hold1,ccancelb1,stop1,hold1"),
         des("explicit-colliding-keys", "condition", b, dl, procs=4, prios="0,1,2,1", budget=4, cond=1, res=1, ops=ops, collide=1,
             script0="hold1,setx1,csig,setx2", script1="cwait0,hold1", script2="cwait1,hold1", script3="cwait2,hold1"),
         des("forwarded-subscribe", "condition", b, dl, procs=3, prios="0,1,2", budget=4, cond=1, res=1, ops=ops,
